@@ -105,6 +105,39 @@ func genC06(r *simrt.Rand, idx int, tier string) ConcCase {
 		id++
 		c.Init = append(c.Init, Op{K: "set", Key: c.Keys[0], ID: id, Size: smallSize(r)})
 	}
+	if idx%6 == 5 {
+		// three kinds of actor on one key: a longer-lived RU/RC transaction that writes the key and
+		// reads it back later, autocommit writers of the same key, and a ReadUncommitted observer;
+		// all levels must agree on which of two overlapping writes is the more recent one
+		hot := c.Keys[0]
+		lvl := 1 - r.Intn(2)*r.Intn(2) // mostly ReadCommitted
+		id++
+		a := []Op{{K: "begin", Tx: 1, Level: lvl}, {K: "yield", N: r.Intn(30)}, {K: "set", Tx: 1, Key: hot, ID: id, Size: smallSize(r)},
+			{K: "yield", N: r.Intn(60)}, {K: "get", Tx: 1, Key: hot}, {K: "yield", N: r.Intn(60)}, {K: "get", Tx: 1, Key: hot}}
+		if r.Intn(2) == 0 {
+			a = append(a, Op{K: "commit", Tx: 1})
+		} else {
+			a = append(a, Op{K: "rollback", Tx: 1})
+		}
+		c.Clients = append(c.Clients, a)
+		for w := 0; w < 1+r.Intn(2); w++ {
+			id++
+			b := []Op{{K: "yield", N: r.Intn(40)}, {K: "set", Key: hot, ID: id, Size: smallSize(r)}}
+			if r.Intn(2) == 0 {
+				b = append(b, Op{K: "get", Key: hot})
+			}
+			c.Clients = append(c.Clients, b)
+		}
+		o := []Op{{K: "begin", Tx: 2, Level: 0}}
+		for k := 0; k < 2+r.Intn(3); k++ {
+			o = append(o, Op{K: "yield", N: r.Intn(80)}, Op{K: "get", Tx: 2, Key: hot})
+		}
+		o = append(o, Op{K: "rollback", Tx: 2})
+		c.Clients = append(c.Clients, o)
+		c.Sched = genSched(r, 700)
+		c.Sched.MaxSteps = 600_000
+		return c
+	}
 	nc := 2 + r.Intn(3)
 	nextTx := 0
 	noDelete := r.Intn(2) == 0
